@@ -20,7 +20,8 @@ package main
 //     attempt  <carrier>,<host>,<scert>
 //              carrier  pipe | tcp | tcp+tls | stdin+tls | wss      (as in authmatrix)
 //              scert    dead (peer accepts the carrier and hangs up) | good | nameonly | iponly |
-//                       wronghost | untrusted | expired | exp1m | exp1s | notyet | fresh (c05_pki.go)
+//                       wronghost | untrusted | expired | exp1m | exp1s | notyet | fresh | sys (c05_pki.go;
+//                       sys = issued by CA S, the system trust store of the harness process)
 //   client options (one cert.ClientConfig for the whole history) and server options as in authmatrix;
 //   attempts of one history that address the same carrier+certificate share ONE server, i.e. one
 //   cert.ServerConfig sees several handshakes.
@@ -66,14 +67,14 @@ type c05Hist struct {
 
 var (
 	c05HCarriers = []string{"pipe", "tcp", "tcp+tls", "stdin+tls", "wss"}
-	c05HSCerts   = []string{"dead", "good", "nameonly", "iponly", "wronghost", "untrusted", "expired", "exp1m", "exp1s", "notyet", "fresh"}
+	c05HSCerts   = []string{"dead", "good", "nameonly", "iponly", "wronghost", "untrusted", "expired", "exp1m", "exp1s", "notyet", "fresh", "sys"}
 )
 
 func parseC05Hist(op string) (c05Hist, bool) {
 	t := strings.Fields(op)
 	var h c05Hist
 	if len(t) < 7 || len(t) > 12 || !c05in([]string{"seq", "list"}, t[0]) || !c05in([]string{"0", "1"}, t[1]) ||
-		!c05in([]string{"A", "-"}, t[2]) || !c05in(c05CCerts, t[3]) || !c05in([]string{"0", "1"}, t[4]) || !c05in([]string{"A", "-"}, t[5]) {
+		!c05in(c05CaTokens, t[2]) || !c05in(c05CCerts, t[3]) || !c05in([]string{"0", "1"}, t[4]) || !c05in(c05CaTokens, t[5]) {
 		return h, false
 	}
 	h = c05Hist{mode: t[0], insecure: t[1] == "1", cca: t[2], ccert: t[3], sreq: t[4] == "1", sca: t[5]}
@@ -117,7 +118,7 @@ func (h c05Hist) serverAcceptable(a c05HAttempt) bool {
 	}
 	signer, names, expired := c05ServerCertAttrs(a.scert)
 	part, _, _ := c05HostTok(a.host)
-	return h.cca == "A" && signer == "A" && !expired && c05HostAcceptable(names, part)
+	return c05in(c05Anchors(h.cca), signer) && !expired && c05HostAcceptable(names, part)
 }
 
 // authority of the attempt's upstream URL / the host string a pipe upstream passes
@@ -132,7 +133,7 @@ func (a c05HAttempt) passed() string {
 	return h
 }
 
-func (h c05Hist) clientAcceptable() bool { return c05ClientCertAcceptable(h.ccert) && h.sca == "A" }
+func (h c05Hist) clientAcceptable() bool { return c05ClientCertAcceptable(h.ccert, h.sca) }
 
 // ---- the recording manager: the real cert.ClientConfig, plus a log of what it handed out ----
 
@@ -236,9 +237,7 @@ func (s *c05HServers) srvCfg(scert string) cert.ServerConfig {
 	p := getC05PKI()
 	leaf := p.serverLeaf(scert) // boundary classes: signed now, for this run of the history
 	c := cert.ServerConfig{Config: cert.Config{Certificate: leaf.certPEM, PrivateKey: leaf.keyPEM}, RequireClientCert: s.h.sreq}
-	if s.h.sca == "A" {
-		c.CaCertificate = p.caPEM["A"]
-	}
+	c05SetCa(&c.Config, s.h.sca)
 	return c
 }
 
@@ -406,9 +405,7 @@ func (tlshistComp) exec1(op string, deadline time.Duration) (string, string, str
 	sink := getC05Sink()
 
 	cliCfg := &cert.ClientConfig{InsecureSkipVerify: h.insecure}
-	if h.cca == "A" {
-		cliCfg.CaCertificate = p.caPEM["A"]
-	}
+	c05SetCa(&cliCfg.Config, h.cca)
 	if h.ccert != "none" {
 		cleaf := p.clientLeaf(h.ccert)
 		cliCfg.Certificate = cleaf.certPEM
@@ -505,9 +502,18 @@ func (tlshistComp) exec1(op string, deadline time.Duration) (string, string, str
 		stdio := a.carrier == "stdin+tls"
 		switch {
 		case r.est && !h.insecure && !stdio && !h.serverAcceptable(a):
-			mons = append(mons, tag+": client completed a verified session with a server whose certificate is not acceptable for this upstream's host name")
+			signer, _, _ := c05ServerCertAttrs(a.scert)
+			note := ""
+			if !c05in(c05Anchors(h.cca), signer) {
+				note = c05AnchorNote("client", h.cca, signer)
+			}
+			mons = append(mons, tag+": client completed a verified session with a server whose certificate is not acceptable for this upstream's host name"+note)
 		case r.est && h.sreq && !h.clientAcceptable():
-			mons = append(mons, tag+": server requiring client certificates admitted a client without an acceptable certificate")
+			note := ""
+			if !c05in(c05Anchors(h.sca), c05ClientCertSigner(h.ccert)) {
+				note = c05AnchorNote("server", h.sca, c05ClientCertSigner(h.ccert))
+			}
+			mons = append(mons, tag+": server requiring client certificates admitted a client without an acceptable certificate"+note)
 		case !r.est && h.serverAcceptable(a) && (!h.sreq || h.clientAcceptable()):
 			mons = append(mons, tag+": client did not complete the session with a reachable, correctly certified server")
 		}
@@ -555,6 +561,8 @@ func (tlshistComp) Gen(r *Rand, tier string, emit func(string)) {
 		"stdin+tls,-,good", "stdin+tls,-,untrusted", "stdin+tls,-,dead",
 		// validity boundary (certificates signed at the moment of use, c05_pki.go)
 		"tcp+tls,127.0.0.1,exp1m", "pipe,server.test,exp1s", "tcp,localhost,notyet", "tcp+tls,localhost,fresh",
+		// certified by CA S = the system trust store of the harness process, configured nowhere
+		"tcp+tls,localhost,sys", "pipe,server.test,sys",
 	}
 	wide := append(append([]string{}, core...),
 		"tcp+tls,127.0.0.1,untrusted", "tcp+tls,127.0.0.1,expired", "tcp+tls,localhost,expired", "tcp+tls,localhost,wronghost",
@@ -563,6 +571,7 @@ func (tlshistComp) Gen(r *Rand, tier string, emit func(string)) {
 		"wss,localhost,good", "wss,127.0.0.1,nameonly", "wss,localhost,iponly", "wss,127.0.0.1,dead",
 		"tcp,127.0.0.1,exp1m", "pipe,server.test,exp1m", "tcp+tls,localhost,exp1s", "tcp+tls,127.0.0.1,notyet", "pipe,server.test,notyet",
 		"pipe,server.test,fresh", "tcp,127.0.0.1,fresh", "wss,localhost,exp1m", "wss,127.0.0.1,fresh", "stdin+tls,-,exp1m",
+		"tcp,127.0.0.1,sys", "wss,localhost,sys", "stdin+tls,-,sys",
 	)
 	base := "0 A none 0 A"
 	set := core
@@ -616,6 +625,22 @@ func (tlshistComp) Gen(r *Rand, tier string, emit func(string)) {
 			}
 		}
 	}
+	// trust anchors: one client configuration with CA A / CA B / no CA (system store = CA S) walks servers
+	// certified by A, B and S; servers that demand a client certificate are configured with A / B / no CA and meet
+	// clients certified by A, B, S.  Only the CA configured on the verifying side (the system store when there is
+	// none) makes a peer acceptable, at every position of the history.
+	for _, mode := range []string{"seq", "list"} {
+		for _, cca := range c05CaTokens {
+			emit(mode + " 0 " + cca + " none 0 A tcp+tls,localhost,sys pipe,server.test,untrusted tcp,localhost,good")
+			emit(mode + " 0 " + cca + " none 0 A pipe,server.test,good tcp+tls,127.0.0.1,untrusted tcp,127.0.0.1,sys")
+		}
+		for _, sca := range c05CaTokens {
+			for _, cc := range []string{"good", "foreign", "sys"} {
+				emit(mode + " 0 A " + cc + " 1 " + sca + " tcp+tls,127.0.0.1,good pipe,server.test,good")
+				emit(mode + " 0 B " + cc + " 1 " + sca + " tcp,localhost,untrusted stdin+tls,-,good")
+			}
+		}
+	}
 	nrand := 150
 	if tier == "thorough" {
 		nrand = 1500
@@ -624,7 +649,7 @@ func (tlshistComp) Gen(r *Rand, tier string, emit func(string)) {
 		n := 3 + r.Intn(3)
 		opts := base
 		if r.Intn(3) == 0 {
-			opts = fmt.Sprintf("%d %s %s %d %s", r.Intn(2), r.Pick([]string{"A", "A", "-"}), r.Pick(c05CCerts), r.Intn(2), r.Pick([]string{"A", "A", "-"}))
+			opts = fmt.Sprintf("%d %s %s %d %s", r.Intn(2), r.Pick([]string{"A", "A", "-", "B"}), r.Pick(c05CCerts), r.Intn(2), r.Pick([]string{"A", "A", "-", "B"}))
 		}
 		toks := []string{r.Pick([]string{"seq", "seq", "list"}), opts}
 		for j := 0; j < n; j++ {
